@@ -128,6 +128,7 @@ package priority
 //@   [*] dsc.opts.Divider != nil && dsc.opts.HandlersQuantity == gH && gH >= 1
 //@   [* C15 C17] priority-list-sorted-distinct-configured: strictlyDesc(dsc.priorities) && allIn(dsc.priorities, gPset)
 //@   [*] forall k :: in(gPset, k) <==> dom(dsc.inputs, k)
+//@   [C15 C17] every-configured-priority-is-listed: forall k :: in(gPset, k) ==> in(pset(dsc.priorities, len(dsc.priorities)), k)
 //@   [*] (dsc.priorities.arr == 0 ==> len(dsc.priorities) == 0) && (dsc.uncrowded.arr == 0 || dsc.uncrowded.arr != dsc.priorities.arr) && (dsc.useful.arr == 0 || dsc.useful.arr != dsc.priorities.arr)
 //@   [*] allocated(dsc.actual) && allocated(dsc.tactic) && (dsc.strategic == nil || allocated(dsc.strategic))
 //@   [* C01] forall k :: dsc.actual[k] == gInflP[k]
@@ -478,10 +479,12 @@ package priority
 //@   ensures [* C17 C15] strictlyDesc(result)
 //@   ensures [* C17] removed-is-gone: forall a :: 0 <= a && a < len(result) ==> result[a] != removed
 //@   ensures [* C17 C15] only-old-elements: forall a :: 0 <= a && a < len(result) ==> (exists b :: 0 <= b && b < len(priorities) && result[a] == oldat(priorities, b))
+//@   ensures [C17 C15] all-others-are-kept: forall b :: (0 <= b && b < len(priorities) && oldat(priorities, b) != removed) ==> (exists a :: 0 <= a && a < len(result) && result[a] == oldat(priorities, b))
 //@   loop 0
 //@     invariant [*] 0 <= kept && kept <= $i
 //@     invariant [* C17] forall a :: 0 <= a && a < kept ==> priorities[a] != removed
 //@     invariant [* C17] forall a :: 0 <= a && a < kept ==> (exists b :: 0 <= b && b < $i && priorities[a] == oldat(priorities, b))
+//@     invariant [C17 C15] forall b :: (0 <= b && b < $i && oldat(priorities, b) != removed) ==> (exists a :: 0 <= a && a < kept && priorities[a] == oldat(priorities, b))
 //@     invariant [* C17] forall a, b :: 0 <= a && a < b && b < kept ==> priorities[a] > priorities[b]
 //@     invariant [* C17] forall a, j :: 0 <= a && a < kept && $i <= j && j < len(priorities) ==> priorities[a] > oldat(priorities, j)
 //@     invariant [* C17] forall j :: $i <= j && j < len(priorities) ==> priorities[j] == oldat(priorities, j)
@@ -501,6 +504,7 @@ package priority
 //@ pred PLIST(dsc)
 //@   [* C15 C17] priority-list-distinct: forall a, b :: 0 <= a && a < b && b < len(dsc.priorities) ==> dsc.priorities[a] != dsc.priorities[b]
 //@   [* C15 C17] priority-list-configured: forall a :: 0 <= a && a < len(dsc.priorities) ==> dom(dsc.inputs, dsc.priorities[a])
+//@   [C15 C17] every-input-is-listed: forall k :: dom(dsc.inputs, k) ==> in(pset(dsc.priorities, len(dsc.priorities)), k)
 
 //@ func (*Discipline).addPriority
 //@   requires [*] WFS(dsc)
